@@ -479,7 +479,7 @@ pub fn run(g: &mut Global) {
         },
         &check,
     );
-    g.random("random", g.tier.pick(20_000, 5_000_000), &random_strategy, &check);
+    g.random("random", g.tier.pick(300_000, 5_000_000), &random_strategy, &check);
     // several builders alive at once, builders dropped unbuilt, slots reused: each build() is judged by the calls
     // made on that builder only (no state shared between builders through statics, thread-locals or pools)
     g.random("several_builders", g.tier.pick(300_000, 5_000_000), &multi_strategy, &check_multi);
@@ -506,7 +506,7 @@ pub fn run(g: &mut Global) {
         },
         &check_seq,
     );
-    g.random("related_sequences", g.tier.pick(200_000, 4_000_000), &seq_strategy, &check_seq);
+    g.random("related_sequences", g.tier.pick(600_000, 4_000_000), &seq_strategy, &check_seq);
     let seed = g.seed;
     g.exhaustive(
         "many_builders_alive",
